@@ -71,6 +71,8 @@ def _r1(ctx):
                   any(isinstance(t, ast.Name) and t.id == par for t in (s_.targets if isinstance(s_, ast.Assign) else [s_.target]))
                   and not (isinstance(s_, ast.Assign) and isinstance(s_.value, ast.Call) and any(x is s_.value for x in cc))
                   and cc and s_.lineno < cc[0].lineno]
+        if not cc:
+            raise AnalysisError("%s: the call of %s was not found" % (fe.name, callee))
         direct = bool(cc) and cc[0].args and isinstance(cc[0].args[0], ast.Name) and cc[0].args[0].id == par
         if direct and not redefs:
             ctx.holds(fe, cc[0], "%s passes the caller's samples unchanged to %s" % (fe.name, callee))
